@@ -273,12 +273,26 @@ def run(ctx):
         raise vf.Inconclusive("the engine contract does not refute the bytewise separator (vacuous contract)")
     ctx.notes["mutant_bytewise_separator"] = "refuted by TLC (EngineSeparator)"
 
-    # ---- 2. binding 1: the comparison table
+    # ---- 2. binding 1: the comparison table (all short keys, and the chunk family: long keys, '/' around the
+    # 8- and 16-byte boundaries); the chunk run also checks the pair laws and the contract on its keys
     r = ctx.tlc("SlashOrderMC", "slash-table.cfg", label="table")
     rows = os.path.join(ctx.scratch, "rows.ndjson")
     n = _export(r, "ROW", rows)
-    if n == 0:
+    r.out, r.printed = "", []
+    r = ctx.tlc("SlashOrderMC", "slash-chunks-table.cfg", label="chunk-table")
+    rows2 = os.path.join(ctx.scratch, "rows-chunks.ndjson")
+    n2 = _export(r, "ROW", rows2)
+    r.out, r.printed = "", []
+    if n == 0 or n2 == 0:
         raise vf.Inconclusive("TLC exported no comparison table")
+    ctx.log("comparison table: %d pairs of short keys, %d pairs of chunk-built keys (up to 24 bytes)" % (n, n2))
+    with open(rows, "a") as f:
+        f.write(open(rows2).read())
+    r = ctx.tlc("SlashOrderMC", "slash-chunks-triples.cfg", label="chunk-triples")
+    ctx.log("transitivity: %d triples of chunk-built keys" % r.distinct)
+    if not quick:
+        r = ctx.tlc("SlashOrderMC", "slash-chunks-pairs-thorough.cfg", label="chunk-pairs")
+        ctx.log("pair laws + engine contract: %d pairs of chunk-built keys (up to 4 chunks, 36 bytes)" % r.distinct)
     adv = [json.loads(l) for l in open(rows) if '"bsepok":false' in l]
     if not adv:
         raise vf.Inconclusive("TLC found no pair on which the bytewise separator breaks the contract")
